@@ -89,6 +89,7 @@ theorem migrate_preserves (newId : Nat) (db : Db) (v : Nat) (hv : db.version = s
         get_remove_ne _ _ _ hS_ne_A, get_insert_self, toOpt_fromVec, hheld, hleg, reading]
       unfold legalA at hleg
       simp [hleg]
+      exact merge_legal_idem _ hleg
   · -- v2
     have hheld := heldSampled_v12 db (Or.inr hv)
     have hleg : legalA db = true := by
@@ -105,6 +106,7 @@ theorem migrate_preserves (newId : Nat) (db : Db) (v : Nat) (hv : db.version = s
         get_remove_ne _ _ _ hS_ne_A, get_insert_self, toOpt_fromVec, hheld, hleg, reading]
       unfold legalA at hleg
       simp [hleg]
+      exact merge_legal_idem _ hleg
   · -- v3
     refine ⟨createTables newId db, ?_, ?_, ?_, ?_⟩
     · simp [openDb, openTx_v3 newId db hv]
@@ -263,6 +265,9 @@ example : heldSampled exV1 ≠ none ∧ heldStored exV1 = some [(1, 3), (7, 9), 
 example : heldSampled exV2 = some [(123, 124)] ∧ heldStored exV2 = some [(1, 200)] := by decide
 example : (obsOf 0 exV1).ok = true ∧ (obsOf 0 exV1).stored = some [(1, 3), (7, 9), (20, 20)] := by decide
 example : (obsOf 0 exV2).sampled = some [(123, 124)] ∧ (obsOf 0 exV2).after.version = some 3 := by decide
+/-- touching ranges `[1..3],[4..6]` are the set `[1..6]`: reported (and re-stored) in canonical form -/
+example : (obsOf 0 { exV2 with ranges := some [("KEY.ACCEPTED_SAMPING_RANGES", [(1, 3), (4, 6), (9, 9)])] }).sampled
+    = some [(1, 6), (9, 9)] := by decide
 /-- a newer database (hypotheses of `newer_refused`) -/
 example : ({ exV2 with version := some 5 } : Db).version = some 5 ∧ 5 > 3 := by decide
 /-- an old database that IS refused: its sampled vector `[(5,4)]` is unreadable -/
